@@ -303,6 +303,9 @@ class Report:
     def __init__(self, pid, tier, seed):
         self.pid, self.tier, self.seed = pid, tier, seed
         self.t0 = time.time()
+        import glob
+        for old in glob.glob(os.path.join(VERIF, "replay", pid + "_*.json")):
+            os.remove(old)
         self.evals = 0
         self.keys = set()
         self.dist = collections.Counter()
